@@ -140,9 +140,11 @@ def run_one(ctx, case, judge, ref_kw=None, exclude=None, nontrivial=None):
             except REF.RefInconsistency as e:
                 raise core.HarnessError("reference model inconsistency: %s\n%s" % (e, loaded.text))
             c = {"program": program, "ops": case["ops"], "truth": truth, "target_kind": case.get("target_kind")}
+            if "family" in case:
+                c["family"] = case["family"]
             judge(ctx, c, truth, res, model)
             nt = nontrivial(case, truth, res, mask, len(cids)) if nontrivial else True
-            ctx.case([program, case["ops"], mask], nt, sample=lambda: {
+            ctx.case([case.get("family"), program, case["ops"], mask], nt, sample=lambda: {
                 "module": res.text[res.text.index("import abc") + 11:].strip()[:1500], "ops": res.ops, "truth": truth})
             if res.def_mismatch:
                 break
